@@ -104,7 +104,7 @@ def run_job(job):
                 break
         # ---- differential validation of explored paths: symbolic outcome == real-stack outcome
         for p in eng.path_log:
-            inputs = eng.concretize(p["pc"], None, p["cf_apps"], pretty=False)
+            inputs = eng.concretize(p["pc"], None, p["cf_apps"], pretty=bool(getattr(hm, "PRETTY_SAMPLES", False)))
             if inputs is None:
                 continue
             out, labels, _ = _concrete_run(hm, job, inputs, job.get("known_active", ()))
